@@ -457,6 +457,12 @@ func main() {
 		c := callNamed(n, "Equal")
 		return c != nil && len(c.Args) == 2
 	})
+	refusesActorTarget := func(n ast.Node) bool { // return nil, types.ErrTargetAddressIsNetworkActor
+		sel, ok := n.(*ast.SelectorExpr)
+		return ok && sel.Sel.Name == "ErrTargetAddressIsNetworkActor"
+	}
+	flagRotRefuse := has("x/recovery/keeper.msgServer.RotateValidatorByHalfRRTokenHolder", refusesActorTarget) &&
+		has("x/recovery/keeper.msgServer.RotateRecoveryAddress", refusesActorTarget)
 	flagUbiCast := has("x/ubi/keeper.Keeper.ProcessUBIRecord", func(n ast.Node) bool { // int64(record.Amount)
 		c := callNamed(n, "int64")
 		if c == nil || len(c.Args) != 1 {
@@ -551,7 +557,7 @@ func main() {
 	sb.WriteString(fmt.Sprintf("(* x/spending/keeper EndBlocker: every Quo divisor d is preceded by `if !d.IsPositive() { continue }` *)\nDefinition spend_endblock_guarded : bool := %v.\n", guarded))
 	sb.WriteString(fmt.Sprintf("(* gov processProposal / processPoll turn an IsQuorum error into panic(\"Invalid quorum ...\") *)\nDefinition gov_proposal_quorum_error_panics : bool := %v.\nDefinition gov_poll_quorum_error_panics : bool := %v.\n", flagProposalQuorum, flagPollQuorum))
 	sb.WriteString(fmt.Sprintf("(* SpendingPoolWithdraw.Apply / ClaimSpendingPool reduce the pool balance with the panicking Coins.Sub *)\nDefinition withdraw_sub_unchecked : bool := %v.\nDefinition claim_sub_unchecked : bool := %v.\n", flagWithdrawSub, flagClaimSub))
-	sb.WriteString(fmt.Sprintf("(* ProcessUBIRecord converts the uint64 amount with int64(record.Amount) *)\nDefinition ubi_amount_cast_int64 : bool := %v.\n(* UpsertUBI.Apply computes the hard-cap sum with uint64 products and integer division by Period *)\nDefinition ubi_apply_uint64_arith : bool := %v.\n(* GetRRTokenHolders keeps only the index entries whose key rest equals the holder (exact denom), not every entry under the denom PREFIX *)\nDefinition rr_holders_exact_denom : bool := %v.\n", flagUbiCast, flagUbiWrap, flagRRExact))
+	sb.WriteString(fmt.Sprintf("(* ProcessUBIRecord converts the uint64 amount with int64(record.Amount) *)\nDefinition ubi_amount_cast_int64 : bool := %v.\n(* UpsertUBI.Apply computes the hard-cap sum with uint64 products and integer division by Period *)\nDefinition ubi_apply_uint64_arith : bool := %v.\n(* GetRRTokenHolders keeps only the index entries whose key rest equals the holder (exact denom), not every entry under the denom PREFIX *)\nDefinition rr_holders_exact_denom : bool := %v.\n(* both address rotations refuse a target that already is a network actor *)\nDefinition rotation_refuses_actor_target : bool := %v.\n", flagUbiCast, flagUbiWrap, flagRRExact, flagRotRefuse))
 	sb.WriteString("(* fingerprint (sha256/64 of the comment-free, gofmt-printed declaration) of every function that contains a site *)\nDefinition fn_fingerprints : list (string * string) := [\n")
 	{
 		var ids []string
